@@ -11,6 +11,7 @@
    is `return <literal>` or `raise ValueError(...)`.                          *)
 
 From Coq Require Import ZArith List String Bool.
+From V Require Export Base.UString.
 Import ListNotations.
 Open Scope Z_scope.
 
@@ -146,7 +147,7 @@ Definition labels_of (t : range_table) : list string := map snd t.
 
 (* ---- rendering for the correspondence run (one result per line) ---- *)
 
-Definition nl : string := String (Ascii.ascii_of_nat 10) EmptyString.
+
 
 Definition show_outcome {A} (show : A -> string) (o : outcome A) : string :=
   match o with
@@ -155,18 +156,5 @@ Definition show_outcome {A} (show : A -> string) (o : outcome A) : string :=
   | FellThrough => "None"
   end.
 
-Fixpoint show_pos_digits (fuel : nat) (n : Z) (acc : string) : string :=
-  match fuel with
-  | O => acc
-  | S f =>
-    let d := n mod 10 in
-    let acc' := String (Ascii.ascii_of_nat (48 + Z.to_nat d)) acc in
-    if n / 10 =? 0 then acc' else show_pos_digits f (n / 10) acc'
-  end.
 
-Definition show_Z (z : Z) : string :=
-  if z <? 0 then append "-" (show_pos_digits 400 (- z) EmptyString)
-  else show_pos_digits 400 z EmptyString.
 
-Definition render_lines (ls : list string) : string :=
-  fold_right (fun l acc => append l (append nl acc)) EmptyString ls.
